@@ -13,15 +13,23 @@ with the model driver on: converter produced or ProviderNotFoundError, every cal
 field-wise) or TypeError.
 Second suite `link`: the linkings the real ModelCoercerProvider fetches for the top-level model pair (observed by a
 recording subclass at the end of the user recipe) against `fetchFieldLinking` of the model.
+Third suite `history`: 2-6 operations on ONE retort (the module-level API = the global retort, or a
+ConversionRetort holding part of the recipe, plus retorts extended from it): the same (src, dst, name) requested
+without a per-call recipe and with different per-call recipes in every order through get_converter / convert /
+impl_converter, also the copy pair (src, src) and other names; every converter obtained is compared with the Lean
+model of the facade and its `_simple_converter_cache` (AdaptixModel/Conv/Facade.lean, `runHistory`) and with
+`convertSpec` under the recipe the specification puts in force for that request (`specRecipes`).
 Direct oracle (real code only): the result equals a Python transcription of the documented algorithm
 (harness/props/c13_oracle.py `Spec`), the source and the extra arguments are unchanged by the call, an
-impl_converter result has the stub's signature / name, creation raises nothing but ProviderNotFoundError.
+impl_converter result has the stub's signature / name, creation raises nothing but ProviderNotFoundError; in a
+history the same is demanded of every request with the recipe in force for *that* request (per-call providers,
+then the providers of the addressed retort), whatever was requested before.
 """
 import copy
 import json
 
 from harness.core import Ctx, Driver, InfraError
-from harness.props.c13_gen import gen_case
+from harness.props.c13_gen import gen_case, gen_history
 from harness.props.c13_oracle import RealCase, Spec, Undefined, Unlinked
 
 ID = "C13"
@@ -40,9 +48,16 @@ CLAIM = {
         "conversion of the wrapped pair, an empty sequence is rebuilt by the destination's factory "
         "(optional_spec_none_test, optional_converter_none_test, empty_iterable_rebuilt); unmatched extra source "
         "fields do not change any linking (extra_src_ignored); plan evaluation cannot write to the source "
-        "(src_untouched); the produced function carries the stub's signature (signature_preserved). The hand-written "
+        "(src_untouched); the produced function carries the stub's signature (signature_preserved). The facade is "
+        "modelled with its cache of simple converters (retorts, extend, per-call recipes, get_converter / convert / "
+        "impl_converter): for every history of operations of any length on any number of retorts every request "
+        "returns what the cache-free specification returns (history_eq_fresh, history_eq_fresh_after, by the cache "
+        "invariant 'every entry is what the owning retort's recipe produces for its key'), hence a converter "
+        "requested with a per-call recipe computes convertSpec under that recipe followed by the retort's, whatever "
+        "was requested before (get_converter_after_any_history, convert_after_any_history). The hand-written "
         "model is tied to /repo on every run by the `convert` correspondence over generated model pairs, recipes, "
-        "parameters and values, and the direct oracle re-checks the property on the real library against an "
+        "parameters and values and by the `history` correspondence over generated request sequences on one retort, "
+        "and the direct oracle re-checks the property on the real library against an "
         "independent Python transcription of the documented algorithm."
     ),
     "note": (
@@ -60,7 +75,9 @@ PROPS_FILE = "AdaptixProofs/Props/C13.lean"
 LEAN_TARGETS = ["AdaptixProofs.Props.C13", "drv_c13"]
 RULE = ("a case is one (model pair, recipe, signature, API) with 1-3 calls; it is non-trivial when a converter is "
         "produced and at least one destination field is fed by something other than the same-named source field "
-        "(explicit link, constant, function, parameter, skipped optional) or a nested model is converted")
+        "(explicit link, constant, function, parameter, skipped optional) or a nested model is converted; a history "
+        "case is one model pair with 2-6 facade operations on one retort, non-trivial when some cache key is "
+        "requested again after a successful request for it")
 ASSUMPTIONS = [
     "source values are well typed for the source model (a TypedDict source carries all its keys)",
     "user functions given to link_function / link(coercer=) / coercer() / factory= are pure (the harness uses "
@@ -335,6 +352,198 @@ def run_cases(ctx: Ctx, cases, drv, suite="convert"):
             ctx.suite("link", ln, ld)
 
 
+# ---------------------------------------------------------------------------
+# histories: several requests on ONE retort (suite `history`)
+# ---------------------------------------------------------------------------
+
+def step_sig(st):
+    """the signature get_converter / convert build for a pair (`_make_simple_converter`); an impl_converter
+    step uses a stub with the same signature"""
+    return {"params": [{"name": "src", "kind": "pos_only", "ty": st["src"]}], "ret": st["dst"]}
+
+
+def history_request(case, world):
+    h = case["history"]
+    steps = []
+    for st in h["steps"]:
+        if st["op"] == "extend":
+            steps.append({"op": "extend", "on": st["on"], "recipe": st["recipe"]})
+        elif st["op"] == "impl":
+            steps.append({"op": "impl", "on": st["on"], "recipe": st["recipe"], "sig": step_sig(st), "calls": st["calls"]})
+        else:
+            steps.append({"op": st["op"], "on": st["on"], "recipe": st["recipe"], "src": st["src"], "dst": st["dst"],
+                          "name": st.get("name"), "calls": st["calls"]})
+    return {"op": "history", "world": world, "retorts": [h["base"]], "fuel": 40, "steps": steps}
+
+
+def _expected(rc, spec, call):
+    """documented result of one call: ("value", json) | ("unlinked", field) | ("undefined",)"""
+    args = [rc.u.from_json(a) for a in call["args"]]
+    kwargs = [(k, rc.u.from_json(v)) for k, v in call["kwargs"]]
+    try:
+        return ("value", canon_value(rc.u, spec.expected(args, kwargs)))
+    except Unlinked as e:
+        return ("unlinked", str(e))
+    except Undefined:
+        return ("undefined",)
+
+
+def check_history(ctx: Ctx, case, reply, suite="history", rc=None):
+    """runs one history on the real library: every request is made on the same retort object(s) in order, and
+    every converter obtained is held against the linking rules of the recipe in force for *that* request (the
+    per-call providers, then the providers of the addressed retort) - the direct oracle - and against the model
+    of the facade with its converter cache. returns (compared, disagreements)"""
+    try:
+        rc = rc or RealCase(case)
+    except Exception as e:
+        raise InfraError(f"cannot materialise case: {type(e).__name__}: {e}\n{json.dumps(case)[:2000]}")
+    h = case["history"]
+    retorts = [None if h["mode"] == "global" else rc.new_retort(h["base"])]
+    recipes = [h["base"]]                 # recipe of every retort of the history
+    earlier = {}                          # cache key -> kinds of the successful requests made for it so far
+    real_rows = []
+    labels = []
+    compared = disagreements = 0
+    model_rows = None
+    if reply is not None:
+        if "ok" not in reply:
+            ctx.disagree(suite, short(case), "history", reply)
+            return 1, 1
+        if not reply["ok"].get("wf"):
+            ctx.disagree("convert-hypotheses", short(case), "generated world", "shapeWFb = false")
+        model_rows = reply["ok"]["steps"]
+    for idx, st in enumerate(h["steps"]):
+        upto = {**case, "history": {**h, "steps": h["steps"][:idx + 1]}}     # the replay stops at the failing request
+        if st["op"] == "extend":
+            retorts.append(rc.extend_retort(retorts[st["on"]], st["recipe"]))
+            recipes.append(st["recipe"] + recipes[st["on"]])
+            real_rows.append({"extended": True})
+            ctx.dist["hist-op-extend"] += 1
+            continue
+        sig = step_sig(st)
+        in_force = st["recipe"] + recipes[st["on"]]
+        spec = Spec({"sig": sig, "recipe": in_force}, rc.u)
+        what = "recipe" if st["recipe"] else "plain"
+        key = None if st["op"] == "impl" else \
+            (st["on"], json.dumps(st["src"], sort_keys=True), json.dumps(st["dst"], sort_keys=True), st.get("name"))
+        prev = earlier.get(key, []) if key is not None else []
+        label = "impl-never-cached" if key is None else \
+            f"{what}-after-" + ("+".join(x for x in ("plain", "recipe") if x in prev) or "nothing")
+        labels.append(label)
+        ctx.dist[f"hist-{label}"] += 1
+        if st["on"] > 0:
+            ctx.dist["hist-request-on-extended-retort"] += 1
+        if st["src"] == st["dst"]:
+            ctx.dist["hist-request-copy-pair"] += 1
+        where = f"request #{idx} ({st['op']} on retort {st['on']}, {what}, {label})"
+
+        created = rc.request(retorts[st["on"]], st, sig)
+        row = {"created": created[0]}
+        if created[0] == "error":
+            ctx.fail(f"history:create:raises-{created[1]}",
+                     f"{where}: creating the converter raised {created[1]} instead of returning a converter or "
+                     f"ProviderNotFoundError", upto)
+        results = []
+        differs_from_plain = False
+        if created[0] == "ok":
+            conv, stub = created[1], created[2]
+            if stub is not None:
+                rep = rc.signature_report(conv, stub)
+                if rep is not None:
+                    ctx.fail("history:signature:not-preserved",
+                             f"{where}: impl_converter result does not carry the stub's signature: {rep}", upto)
+            plain_spec = Spec({"sig": sig, "recipe": recipes[st["on"]]}, rc.u) if st["recipe"] else None
+            for call in st["calls"]:
+                out = rc.call(conv, call)
+                if "value" in out:
+                    out["value"] = canon_value(rc.u, out["value"])
+                results.append(out)
+                if out.get("exc") == "ValidationError":
+                    out["skip"] = True            # a pydantic destination's own checks: outside the property
+                    ctx.dist["call-skipped-pydantic-validation"] += 1
+                    continue
+                if not out["src_unchanged"]:
+                    ctx.fail("history:source:modified", f"{where}: the source object changed during the call", upto)
+                exp = _expected(rc, spec, call)
+                if plain_spec is not None and _expected(rc, plain_spec, call) != exp:
+                    differs_from_plain = True
+                if exp[0] == "unlinked" and "value" in out:
+                    ctx.fail("history:unlinked-field-accepted",
+                             f"{where}: a converter was returned and produced a value although the linking rules of "
+                             f"the recipe in force leave the destination field {exp[1]} without a link", upto)
+                if st["op"] == "convert" and out.get("exc") == "ProviderNotFoundError":
+                    continue
+                if exp[0] == "value":
+                    if "value" not in out:
+                        ctx.fail(f"history:call:raises-{out['exc']}",
+                                 f"{where}: calling the converter raised {out['exc']}; the documented result is "
+                                 f"{json.dumps(exp[1])[:300]}", upto)
+                    elif out["value"] != exp[1]:
+                        ctx.fail("history:result-differs-from-linking-rules",
+                                 f"{where}: converter returned {json.dumps(out['value'])[:300]} but the linking rules "
+                                 f"of the recipe in force give {json.dumps(exp[1])[:300]}", upto)
+            if st["op"] == "convert" and any(r.get("exc") == "ProviderNotFoundError" for r in results):
+                row["created"] = "not_found"      # convert() builds the converter inside the call
+        if row["created"] == "ok":
+            row["results"] = [{"skip": True} if r.get("skip") else r.get("value", {"exc": r.get("exc")}) for r in results]
+            if key is not None:
+                earlier.setdefault(key, []).append(what)
+        ctx.dist[f"hist-op-{st['op']}:{row['created']}"] += 1
+        if differs_from_plain and label.startswith("recipe-after-plain"):
+            ctx.dist["hist-recipe-after-plain:result-differs-from-plain-result"] += 1
+        real_rows.append(row)
+
+        if model_rows is not None and created[0] != "error":
+            compared += 1
+            m = model_rows[idx]
+            mv = {"created": "ok" if m.get("created") else "not_found"}
+            rv = copy.deepcopy(row)
+            if m.get("created"):
+                for r in m["results"]:
+                    if r["model"] != r["spec"]:
+                        ctx.disagree("history-model-vs-spec", short(upto), r["spec"], r["model"])
+                mv["results"] = [canon_value(rc.u, r["model"]) if r["model"] is not None else {"exc": "TypeError"}
+                                 for r in m["results"]]
+            if "results" in rv:
+                rv["results"] = [r if "exc" not in r or r["exc"] == "TypeError" else {"exc": r["exc"]} for r in rv["results"]]
+                if "results" in mv:
+                    mv["results"] = [{"skip": True} if r.get("skip") else mr for r, mr in zip(rv["results"], mv["results"])]
+            if rv != mv:
+                disagreements += 1
+                ctx.disagree(suite, short(upto), rv, mv)
+    again = [lb for lb in labels if not lb.endswith("-after-nothing") and lb != "impl-never-cached"]
+    ctx.note_case({"classes": case["classes"], "history": h}, nontrivial=bool(again), kind=f"history:{h['mode']}")
+    ctx.dist[f"hist-requests-{min(len(labels), 6)}"] += 1
+    if any(lb.startswith("recipe-after-plain") for lb in labels):
+        ctx.dist["hist-case-with-recipe-after-plain"] += 1
+    for k, v in (case.get("profile") or {}).items():
+        if v:
+            ctx.dist[f"hist-profile-{k}"] += 1
+    ctx.sample({"suite": suite, "mode": h["mode"], "base": h["base"][:3],
+                "steps": [{k: v for k, v in st.items() if k != "calls"} for st in h["steps"]][:4],
+                "real": real_rows[:4]}, every=53)
+    return compared, disagreements
+
+
+def run_histories(ctx: Ctx, cases, drv, suite="history"):
+    rcs, reqs = [], []
+    for case in cases:
+        try:
+            rc = RealCase(case)
+        except Exception as e:
+            raise InfraError(f"cannot materialise case: {type(e).__name__}: {e}\n{json.dumps(case)[:3000]}")
+        rcs.append(rc)
+        reqs.append(history_request(case, rc.u.world_json()))
+    replies = drv.batch(reqs) if drv else [None] * len(cases)
+    n = d = 0
+    for case, rep, rc in zip(cases, replies, rcs):
+        a, b = check_history(ctx, case, rep, suite, rc)
+        n += a
+        d += b
+    if drv:
+        ctx.suite(suite, n, d)
+
+
 def _fixed_cases():
     """hand-written corner cases run first on every seed (docs examples and past findings)"""
     from harness.props.c13_gen import atom_json
@@ -373,22 +582,37 @@ def run(ctx: Ctx):
         cases = [gen_case(ctx.rng) for _ in range(min(batch, n - done))]
         run_cases(ctx, cases, drv, "convert")
         done += len(cases)
+    # histories: the same pair requested several times on one retort, with and without per-call recipes
+    n = ctx.budget(320, 4000)
+    done = 0
+    while done < n:
+        cases = [gen_history(ctx.rng) for _ in range(min(batch, n - done))]
+        run_histories(ctx, cases, drv, "history")
+        done += len(cases)
     ctx.extra["exhaustive"] = False
 
 
 def search(ctx: Ctx):
     """after a broken tie: the disagreeing cases first (direct oracle already ran on them), then a larger budget"""
     for d in ctx.disagreements[:100]:
-        if isinstance(d.get("case"), dict) and "classes" in d["case"]:
+        if isinstance(d.get("case"), dict) and "history" in d["case"]:
+            check_history(ctx, d["case"], None, "search")
+        elif isinstance(d.get("case"), dict) and "classes" in d["case"]:
             check_case(ctx, d["case"], None, "search")
     if not ctx.failures:
-        for _ in range(6000):
-            check_case(ctx, gen_case(ctx.rng), None, "search")
+        for i in range(6000):
+            if i % 4 == 3:
+                check_history(ctx, gen_history(ctx.rng), None, "search")
+            else:
+                check_case(ctx, gen_case(ctx.rng), None, "search")
             if ctx.failures:
                 break
 
 
 def replay(ctx: Ctx, case) -> bool:
     before = len(ctx.failures)
-    check_case(ctx, case, None, "replay")
+    if "history" in case:
+        check_history(ctx, case, None, "replay")
+    else:
+        check_case(ctx, case, None, "replay")
     return len(ctx.failures) > before
